@@ -114,7 +114,7 @@ def step (nd : Node) (ws : List String) : Node × String :=
     | some sh, some tk =>
       if sh < nd.nShards then (nd, showSet (((nd.shards sh).fwd.all.filter (·.1 = tk)).map (·.2.2))) else bad
     | _, _ => bad
-  | ["mprepare"] => (nd.metaPrepare, "ok")
+  | ["mprepare"] => (nd.metaPrepareE cfg.prepareSwapsEmpty, "ok")
   | ["mflush"] => (nd.metaFlush, "ok")
   | ["mflushcrash", k] =>
     match k.toNat? with
@@ -122,7 +122,7 @@ def step (nd : Node) (ws : List String) : Node × String :=
     | none => bad
   | ["iprepare", sh] =>
     match sh.toNat? with
-    | some sh => if sh < nd.nShards then (nd.indexPrepare sh, "ok") else bad
+    | some sh => if sh < nd.nShards then (nd.indexPrepareE sh cfg.prepareSwapsEmpty, "ok") else bad
     | none => bad
   | ["iflush", sh] =>
     match sh.toNat? with
